@@ -2,7 +2,7 @@
     This file only pins statements: every theorem restates a lemma of proofs/ verbatim and is closed by it. *)
 From CacheD Require Import Base Sketch Model Window Micro.
 From CacheD.proofs Require Import Defs ApiProofs HistoryProofs StatsProofs.
-From CacheD.proofs Require Import MicroProofs MicroFifo.
+From CacheD.proofs Require Import MicroProofs MicroFifo MicroAck.
 
 (** (C11 for every micro step, no condition on the state or the event): whatever micro step is taken - by a
    caller at any schedule point, by the worker inside any command, by the sweeper, the consumer, any stage of shutdown() -
@@ -21,6 +21,27 @@ Theorem C11_micro_worker_one_at_a_time :
   mstep cfg ms (MWorker1 orc) = (ms, [6]) /\ mstep cfg ms (MWin (WBase (EWorker orc))) = (ms, [6]).
 Proof. exact micro_worker_one_at_a_time. Qed.
 Print Assumptions C11_micro_worker_one_at_a_time.
+
+(** (ids are not reused): at every state of every micro schedule an acknowledgement id is queued or in flight at most
+   once, and every id that has a status or is queued or in flight was handed out (is below the counter) *)
+Theorem C11_micro_ack_ids_unique_all :
+  forall cfg evs a,
+  let ms := mrun cfg evs in a <> -1 ->
+  (count_occ Z.eq_dec (map snd (queue (mbase ms)) ++ inflight ms) a <= 1)%nat /\
+  (forall x, alookup a (acks (mbase ms)) = Some x -> 0 <= a < next_ack (mbase ms)).
+Proof. exact micro_ack_ids_unique_all. Qed.
+Print Assumptions C11_micro_ack_ids_unique_all.
+
+(** (C13 / C12 at every state of every micro schedule, no condition on the events): while the worker has not
+   panicked, an acknowledgement is pending exactly when its command is still queued or in flight inside the worker (in
+   any of its windows); every id handed out is below the id counter; no id is queued or in flight twice *)
+Theorem C11_micro_ack_pending_iff_all :
+  forall cfg evs a,
+  let ms := mrun cfg evs in
+  worker (mbase ms) <> Dead -> 0 <= a ->
+  (alookup a (acks (mbase ms)) = Some Pending <-> In a (map snd (queue (mbase ms))) \/ In a (inflight ms)).
+Proof. exact micro_ack_pending_iff_all. Qed.
+Print Assumptions C11_micro_ack_pending_iff_all.
 
 (** the micro steps of one call, executed back to back by a caller that is not inside another call, are the
    atomic call of Model.v: same state, same observation, and the caller is out of every window again *)
